@@ -25,6 +25,9 @@ CLAIMED = {
  "C01": ("polynomial value congruence on SSA (GVN-style normal forms), dominance and value-flow ordering rules (static)",
          "Structural clauses decided for every execution: each DataRecord is a fresh slice filled by one copy from the processor's own stream whose window length equals the record length, with presamples = trigger index - window start, trigger frame = stream first frame + that index, trigger time = TimeOf(that index) and channel identity from the same processor; append/trim keep first-frame and first-time congruent with the retained samples; TimeOf formula; pipeline order and fork-join order of the block fan-out; only DataStream methods write stream bookkeeping. Not decided: sufficiency of retained history (C02), bit-identity over all block partitions, index safety, trigger search arithmetic.",
          "field names rawData/firstFrameIndex/firstTime/framesPerSample/framePeriod and the DataRecord/DataStream types are name-keyed anchors; congruence is modulo commutative-ring axioms with narrowing conversions opaque", "DESIGN.md §2 C01"),
+ "C02": ("polynomial value congruence on SSA + must-pass-through (static)",
+         "Structural preconditions of sound/complete triggering across block edges decided for every path: the two copies of the record length are congruent after every store that can change either; the history kept on trim is a*nsamp+b (a>=2,b>=0) of that copy; edge/level scan window = [max(LastTrigger-firstFrame+NSamples, NPresamples), len+NPresamples-NSamples), auto scan bounds, one-record dead time after an edge trigger; LastTrigger = last record's frame whenever records exist; reconfiguration resets the edge-multi state; the start path initialises the hold-off reference far in the past. Not decided: trigger criteria on sample values, non-overlap, auto-trigger gap bound.",
+         "function and field names of the trigger passes are name-keyed anchors; scan-window formulas are compared as polynomials, so algebraically equivalent rewrites pass while a different window is reported", "DESIGN.md §2 C02"),
 }
 
 NOT_BUILT_REASON = "static rule designed in DESIGN.md but not built yet; not claimed until it is"
